@@ -145,6 +145,10 @@ func (e EvmEngine) genLeaf(r *Run, bit int, nNodes int, v *ChainView) []PAct {
 		if r.Pct(50) {
 			ap = PAct{K: "pre", T: "token:USDT", M: "transfer", Args: []string{someone(), "7"}, Bit: bit + 1}
 		}
+		if r.Pct(30) {
+			// message-only bridge call: no tokens, no value - nothing but the record itself is written
+			return []PAct{mk("crosschain", "bridgeCall", "$chain", someone(), "", "", fmt.Sprintf("$ext%d", r.Rng.IntN(5)), fmt.Sprintf("%04x", 0x1000+bit), "0", "")}
+		}
 		bc := mk("crosschain", "bridgeCall", "$chain", someone(), "$USDT", tokAmt, fmt.Sprintf("$ext%d", r.Rng.IntN(5)), "", "0", "")
 		return []PAct{ap, bc}
 	}
